@@ -63,22 +63,17 @@ Qed.
 
 (* every question the reference reads (name of at most 256 octets, at most 254 pointers, QDCOUNT 1,
    at least one label) is decoded with the same name, type, class and end offset *)
-Theorem question_complete p index buffer d ls n t c : wf p -> bytes_ok (arr p) -> (12 <= len p)%nat ->
+Theorem question_complete_gen p index buffer d ls n t c : wf p -> bytes_ok (arr p) -> (12 <= len p)%nat ->
   u16_at (view p) 4 = Some 1 ->
-  name_at_d (view p) d index ls n -> (d <= 254)%nat -> (wire_len ls <= 256)%nat -> ls <> [] ->
+  name_at_d (view p) d index ls n -> (d <= 254)%nat -> (wire_len ls <= 256)%nat ->
+  (index + 6 <= len p)%nat ->
   u16_at (view p) n = Some t -> u16_at (view p) (n + 2) = Some c ->
   decodeQuestion p (Z.of_nat index) buffer = Ok (mkQ (dotted ls) t c, (n + 4)%nat).
 Proof.
-  intros Hwf Hok H12 Hqd Hna Hd Hw Hne Ht Hc. unfold decodeQuestion. pose proof Hwf as Hwf'. unfold wf in Hwf'.
+  intros Hwf Hok H12 Hqd Hna Hd Hw Hn2 Ht Hc. unfold decodeQuestion. pose proof Hwf as Hwf'. unfold wf in Hwf'.
   rewrite be16_at_ok by lia. cbn [bind].
   apply u16_at_view in Hqd as [_ Hqd]; auto. rewrite Hqd. cbn [negb N.eqb Pos.eqb].
   apply u16_at_view in Ht as [Lt Ht]; auto. apply u16_at_view in Hc as [Lc Hc]; auto.
-  (* a name with at least one label occupies at least 2 bytes before n *)
-  assert (index + 2 <= n)%nat as Hn2.
-  { inversion Hna; subst; try contradiction; try lia.
-    assert (index + 1 + N.to_nat c0 <= n)%nat; [|lia].
-    clear - H3. remember (index + 1 + N.to_nat c0)%nat as o.
-    clear Heqo. induction H3; lia. }
   destruct (Z.ltb_spec (Z.of_nat (len p)) (Z.of_nat index + 6)); [lia|].
   unfold decodeNameZ. destruct (Z.leb_spec (Z.of_nat (len p)) (Z.of_nat index)); [lia|].
   destruct (Z.ltb_spec (Z.of_nat index) 0); [lia|]. rewrite Nat2Z.id.
@@ -87,6 +82,27 @@ Proof.
   rewrite !be16_at_ok by lia. cbn [bind]. rewrite Ht.
   replace (n + 2 + 1)%nat with (n + 3)%nat in Hc by lia.
   replace (n + 2 + 1)%nat with (n + 3)%nat by lia. rewrite Hc. reflexivity.
+Qed.
+
+(* the end of a name lies behind its start: 1 byte for the root, at least 2 for anything else *)
+Lemma name_at_d_next msg d off ls n : name_at_d msg d off ls n -> (off + 1 <= n)%nat /\ (ls <> [] -> off + 2 <= n)%nat.
+Proof.
+  induction 1 as [off H | d off c ls next H H1 H2 H3 _ [IH1 IH2] | d off c1 c2 ls next' H H1 H2 _ IH].
+  - split; [lia|]. intros Hne; contradiction.
+  - split; [lia|]. intros _. lia.
+  - split; [lia|]. intros _. lia.
+Qed.
+
+Theorem question_complete p index buffer d ls n t c : wf p -> bytes_ok (arr p) -> (12 <= len p)%nat ->
+  u16_at (view p) 4 = Some 1 ->
+  name_at_d (view p) d index ls n -> (d <= 254)%nat -> (wire_len ls <= 256)%nat -> ls <> [] ->
+  u16_at (view p) n = Some t -> u16_at (view p) (n + 2) = Some c ->
+  decodeQuestion p (Z.of_nat index) buffer = Ok (mkQ (dotted ls) t c, (n + 4)%nat).
+Proof.
+  intros Hwf Hok H12 Hqd Hna Hd Hw Hne Ht Hc.
+  apply question_complete_gen with (d := d); auto.
+  destruct (name_at_d_next _ _ _ _ _ Hna) as [_ Hn2]. specialize (Hn2 Hne).
+  apply u16_at_view in Hc as [Lc _]; auto. lia.
 Qed.
 
 (* ------------------------------------------------------------------ *)
@@ -130,6 +146,154 @@ Proof.
   rewrite E. destruct (existsb _ l); cbn [fst snd]; [reflexivity|]. rewrite map_app. reflexivity.
 Qed.
 
+Lemma ins_ptr_spec target ip ttl l :
+  let f := fun r => (ir_name r, ir_ip r, ir_ttl r) in
+  add_absent target ip ttl (map f l) =
+  (map f (fst (ins_ip ir_name (mkIPRR target ip ttl) l)), snd (ins_ip ir_name (mkIPRR target ip ttl) l)).
+Proof.
+  intros f. unfold add_absent, ins_ip. rewrite existsb_map. cbn [fst ir_name].
+  assert (E : existsb (fun x => lab_eqb (fst (fst (f x))) target) l = existsb (fun x => bytes_eqb (ir_name x) target) l).
+  { apply existsb_ext'. intros x. apply lab_eqb_bytes_eqb. }
+  rewrite E. destruct (existsb _ l); cbn [fst snd]; [reflexivity|]. rewrite map_app. reflexivity.
+Qed.
+
+Lemma reverse_v4_shape ls ip : reverse_v4 ls = Some ip -> exists a b c d, ip = [a; b; c; d].
+Proof.
+  unfold reverse_v4. destruct ls as [|d [|c [|b [|a [|l1 [|l2 [|x xs]]]]]]]; try discriminate.
+  destruct (_ && _); [|discriminate].
+  destruct (dec_octet a), (dec_octet b), (dec_octet c), (dec_octet d); try discriminate.
+  intros H; inversion H; eauto.
+Qed.
+
+(* ------------------------------------------------------------------ *)
+(* PTR owner: the library reads the dotted text (TrimSuffix + netip.ParseAddr), the reference the
+   labels.  They agree whenever no label of the owner contains a '.' octet. *)
+
+Definition dotfree (l : bytes) : Prop := ~ In 46 l.
+
+Lemma split_dots_nonempty s : split_dots s <> [].
+Proof.
+  induction s as [|c r IH]; cbn [split_dots]; [discriminate|].
+  destruct (c =? 46); [discriminate|]. destruct (split_dots r); discriminate.
+Qed.
+
+Lemma split_dots_app a b : split_dots (a ++ 46 :: b) = split_dots a ++ split_dots b.
+Proof.
+  induction a as [|c a IH]; [reflexivity|].
+  cbn [app split_dots]. destruct (c =? 46); [rewrite IH; reflexivity|].
+  rewrite IH. pose proof (split_dots_nonempty a) as Hn.
+  destruct (split_dots a) as [|f fs]; [contradiction|]. reflexivity.
+Qed.
+
+Lemma split_dots_dotfree s : dotfree s -> split_dots s = [s].
+Proof.
+  unfold dotfree. induction s as [|c r IH]; intros H; [reflexivity|].
+  cbn [split_dots]. destruct (N.eqb_spec c 46) as [->|Hc]; [exfalso; apply H; left; reflexivity|].
+  rewrite IH by (intros Hin; apply H; right; exact Hin). reflexivity.
+Qed.
+
+Lemma dotted_cons l r : r <> [] -> dotted (l :: r) = l ++ 46 :: dotted r.
+Proof. destruct r; [contradiction|reflexivity]. Qed.
+
+Lemma split_dotted ls : Forall dotfree ls -> ls <> [] -> split_dots (dotted ls) = ls.
+Proof.
+  induction ls as [|l r IH]; intros Hf Hne; [contradiction|].
+  inversion Hf as [|? ? Hl Hr]; subst. destruct r as [|l2 r'].
+  - cbn [dotted]. apply split_dots_dotfree. exact Hl.
+  - rewrite dotted_cons by discriminate. rewrite split_dots_app, split_dots_dotfree by exact Hl.
+    rewrite IH by (auto; discriminate). reflexivity.
+Qed.
+
+Lemma digits_val_dec s acc : digits_val s acc = dec_octet_aux s acc.
+Proof. revert acc; induction s as [|c r IH]; intros acc; cbn [digits_val dec_octet_aux]; auto; try (destruct (_ && _); auto). Qed.
+
+Lemma ip4_octet_dec s : ip4_octet s = dec_octet s.
+Proof.
+  destruct s as [|c [|c2 r]]; cbn [ip4_octet dec_octet]; auto; try apply digits_val_dec;
+    try (destruct (c =? 48); auto; destruct (Nat.ltb _ _); auto; rewrite digits_val_dec; reflexivity).
+Qed.
+
+Lemma dec_octet_aux_dotfree s : forall acc v, dec_octet_aux s acc = Some v -> dotfree s.
+Proof.
+  unfold dotfree. induction s as [|c r IH]; intros acc v H Hin; [destruct Hin|].
+  cbn [dec_octet_aux] in H. destruct ((48 <=? c) && (c <=? 57)) eqn:E; [|discriminate].
+  destruct Hin as [->|Hin]; [cbn in E; discriminate|]. eapply IH; eauto.
+Qed.
+
+Lemma dec_octet_dotfree s v : dec_octet s = Some v -> dotfree s.
+Proof.
+  destruct s as [|c [|c2 r]]; cbn [dec_octet]; intros H; try discriminate.
+  - eapply dec_octet_aux_dotfree; eauto.
+  - destruct (c =? 48); [discriminate|]. destruct (Nat.ltb _ _); [discriminate|].
+    destruct (dec_octet_aux (c :: c2 :: r) 0) eqn:E; [|discriminate]. eapply dec_octet_aux_dotfree; eauto.
+Qed.
+
+Lemma lab_eqb_eq a b : lab_eqb a b = true <-> a = b.
+Proof. rewrite lab_eqb_bytes_eqb. apply bytes_eqb_eq. Qed.
+
+Lemma trim_suffix_app x suf : suf <> [] ->
+  trim_suffix (x ++ suf) suf = x /\ length x <> length (x ++ suf).
+Proof.
+  intros Hs. unfold trim_suffix. rewrite app_length.
+  replace (length x + length suf - length suf)%nat with (length x) by lia.
+  destruct (Nat.leb_spec (length suf) (length x + length suf)); [|lia].
+  rewrite skipn_app, skipn_all, Nat.sub_diag. cbn [app skipn]. rewrite bytes_eqb_refl. cbn [andb].
+  rewrite firstn_app, firstn_all, Nat.sub_diag. cbn [firstn]. rewrite app_nil_r.
+  split; [reflexivity|]. destruct suf; [contradiction|]. cbn [length]. lia.
+Qed.
+
+Lemma trim_suffix_inv s suf : length (trim_suffix s suf) <> length s ->
+  s = trim_suffix s suf ++ suf.
+Proof.
+  unfold trim_suffix. destruct (Nat.leb_spec (length suf) (length s)); cbn [andb]; [|contradiction].
+  destruct (bytes_eqb _ suf) eqn:E; [|contradiction]. intros _.
+  apply bytes_eqb_eq in E. rewrite <- E at 2. symmetry. apply firstn_skipn.
+Qed.
+
+Lemma in_addr_arpa_eq : IN_ADDR_ARPA = 46 :: dotted [IN_ADDR; ARPA].
+Proof. reflexivity. Qed.
+
+Lemma dotted_snoc2 ls : ls <> [] -> dotted (ls ++ [IN_ADDR; ARPA]) = dotted ls ++ IN_ADDR_ARPA.
+Proof.
+  induction ls as [|l r IH]; intros H; [contradiction|]. destruct r as [|l2 r'].
+  - reflexivity.
+  - change ((l :: l2 :: r') ++ [IN_ADDR; ARPA]) with (l :: ((l2 :: r') ++ [IN_ADDR; ARPA])).
+    rewrite dotted_cons by (destruct r'; discriminate). rewrite IH by discriminate.
+    rewrite (dotted_cons l (l2 :: r')) by discriminate. rewrite <- app_assoc. reflexivity.
+Qed.
+
+Lemma dotfree_in_addr : dotfree IN_ADDR /\ dotfree ARPA.
+Proof. split; intros H; cbn in H; repeat (destruct H as [H|H]; [discriminate|]); exact H. Qed.
+
+(* the model's reading, in text order a.b.c.d, is the reference's (address order) reversed *)
+Lemma ptr_owner_spec ls : Forall dotfree ls ->
+  parse_ptr_owner (dotted ls) = option_map (@rev N) (reverse_v4 ls).
+Proof.
+  intros Hf. unfold parse_ptr_owner.
+  destruct (Nat.eqb_spec (length (trim_suffix (dotted ls) IN_ADDR_ARPA)) (length (dotted ls))) as [E|E].
+  - (* no suffix: the reference cannot read a reverse name either *)
+    destruct (reverse_v4 ls) as [ip|] eqn:R; [|reflexivity]. exfalso.
+    unfold reverse_v4 in R.
+    destruct ls as [|d [|c [|b [|a [|l1 [|l2 [|x xs]]]]]]]; try discriminate.
+    destruct (lab_eqb l1 IN_ADDR) eqn:E1; [|discriminate]. destruct (lab_eqb l2 ARPA) eqn:E2; [|discriminate].
+    apply lab_eqb_eq in E1, E2. subst l1 l2.
+    change [d; c; b; a; IN_ADDR; ARPA] with ([d; c; b; a] ++ [IN_ADDR; ARPA]) in E.
+    rewrite dotted_snoc2 in E by discriminate.
+    destruct (trim_suffix_app (dotted [d; c; b; a]) IN_ADDR_ARPA ltac:(discriminate)) as [T L].
+    rewrite T in E. contradiction.
+  - pose proof (trim_suffix_inv _ _ E) as Hs. set (X := trim_suffix (dotted ls) IN_ADDR_ARPA) in *.
+    assert (ls <> []) as Hne by (intros ->; cbn in Hs; destruct X; discriminate).
+    assert (Hsp : ls = split_dots X ++ [IN_ADDR; ARPA]).
+    { rewrite <- (split_dotted ls Hf Hne). rewrite Hs. rewrite in_addr_arpa_eq, split_dots_app.
+      reflexivity. }
+    unfold parse_ipv4. rewrite Hsp. unfold reverse_v4.
+    destruct (split_dots X) as [|f1 [|f2 [|f3 [|f4 [|f5 r]]]]]; cbn [app]; try reflexivity.
+    { rewrite (ip4_octet_dec f1), (ip4_octet_dec f2), (ip4_octet_dec f3), (ip4_octet_dec f4). replace (lab_eqb IN_ADDR IN_ADDR) with true by reflexivity.
+      replace (lab_eqb ARPA ARPA) with true by reflexivity. cbn [andb].
+      destruct (dec_octet f1), (dec_octet f2), (dec_octet f3), (dec_octet f4); reflexivity. }
+    destruct r as [|x [|y r']]; reflexivity.
+Qed.
+
 Definition depth_at (msg : bytes) (off : nat) : nat := ref_depth (S (length msg)) msg off.
 
 Lemma rr_name_complete p off buffer ls n : wf p -> bytes_ok (arr p) ->
@@ -145,13 +309,14 @@ Lemma rr_step_spec p buffer off e r nx lim :
   wf p -> bytes_ok (arr p) -> (lim <= 256)%nat ->
   ref_rr_at lim (view p) off = Some (r, nx) ->
   (depth_at (view p) off <= 254)%nat ->
-  rr_type r <> 12 ->
-  (rr_type r = 5 -> (depth_at (view p) (rr_rdoff r) <= 254)%nat) ->
+  (rr_type r = 5 \/ rr_type r = 12 -> (depth_at (view p) (rr_rdoff r) <= 254)%nat) ->
+  (rr_type r = 12 -> Forall dotfree (rr_owner r)) ->
   learn lim (view p) r <> LBad ->
   exists u e', rr_step p buffer off e = (Ok (nx, u, e'), e') /\
-               learn_into (cache_of_entry e) (learn lim (view p) r) = (cache_of_entry e', u).
+               learn_into (cache_of_entry e) (learn lim (view p) r) = (cache_of_entry e', u) /\
+               de_name e' = de_name e.
 Proof.
-  intros Hwf Hok Hlim H Hd H12 Hd5 Hbad. pose proof Hwf as Hwf'. unfold wf in Hwf'.
+  intros Hwf Hok Hlim H Hd Hd5 Hdot Hbad. pose proof Hwf as Hwf'. unfold wf in Hwf'.
   unfold ref_rr_at in H.
   destruct (ref_decode (view p) off) as [[ls n]|] eqn:Hdec; [|discriminate].
   destruct (Nat.leb_spec (wire_len ls) lim) as [Hw|]; [|discriminate].
@@ -183,7 +348,7 @@ Proof.
     rewrite <- sub_view by lia.
     pose proof (ins_ip_spec (dotted ls) (sub (view p) (n + 10) 4) ttl (de_ip4 e)) as Hs. cbv zeta in Hs.
     destruct (ins_ip ir_ip _ (de_ip4 e)) as [l u] eqn:Hi. cbn [fst snd] in Hs.
-    exists u. eexists. split; [reflexivity|]. cbn [learn_into]. unfold cache_of_entry at 1. cbn [c_a].
+    exists u. eexists. split; [reflexivity|]. split; [|reflexivity]. cbn [learn_into]. unfold cache_of_entry at 1. cbn [c_a].
     rewrite Hs. reflexivity. }
   destruct (N.eqb_spec t 28) as [->|T28].
   { destruct (Nat.eqb_spec (N.to_nat rdl) 16) as [E16|]; [|contradiction].
@@ -191,30 +356,44 @@ Proof.
     rewrite <- sub_view by lia.
     pose proof (ins_ip_spec (dotted ls) (sub (view p) (n + 10) 16) ttl (de_ip6 e)) as Hs. cbv zeta in Hs.
     destruct (ins_ip ir_ip _ (de_ip6 e)) as [l u] eqn:Hi. cbn [fst snd] in Hs.
-    exists u. eexists. split; [reflexivity|]. cbn [learn_into]. unfold cache_of_entry at 1. cbn [c_aaaa].
+    exists u. eexists. split; [reflexivity|]. split; [|reflexivity]. cbn [learn_into]. unfold cache_of_entry at 1. cbn [c_aaaa].
     rewrite Hs. reflexivity. }
   destruct (N.eqb_spec t 5) as [->|T5].
   { destruct (ref_decode (view p) (n + 10)) as [[cls cn]|] eqn:Hc5; [|contradiction].
     destruct (Nat.leb_spec (wire_len cls) lim) as [Hwc|]; [|contradiction].
-    rewrite (rr_name_complete p (n + 10) buffer cls cn) by (auto; lia).
+    rewrite (rr_name_complete p (n + 10) buffer cls cn) by (auto; try lia; apply Hd5; auto).
     pose proof (ins_name_spec (dotted ls) (dotted cls) ttl (de_cname e)) as Hs. cbv zeta in Hs.
     destruct (ins_name _ (de_cname e)) as [l u] eqn:Hi. cbn [fst snd] in Hs.
-    exists u. eexists. split; [reflexivity|]. cbn [learn_into]. unfold cache_of_entry at 1. cbn [c_cname].
+    exists u. eexists. split; [reflexivity|]. split; [|reflexivity]. cbn [learn_into]. unfold cache_of_entry at 1. cbn [c_cname].
     rewrite Hs. reflexivity. }
-  destruct (N.eqb_spec t 12) as [->|T12]; [contradiction|].
-  exists false, e. split; reflexivity.
+  destruct (N.eqb_spec t 12) as [->|T12].
+  { rewrite ptr_owner_spec by (apply Hdot; reflexivity).
+    destruct (reverse_v4 ls) as [ip|] eqn:R; cbn [option_map].
+    - destruct (reverse_v4_shape _ _ R) as (a4 & b4 & c4 & d4 & ->). cbn [rev app].
+      destruct (ref_decode (view p) (n + 10)) as [[pls pn]|] eqn:Hp12; [|contradiction].
+      destruct (Nat.leb_spec (wire_len pls) lim) as [Hwp|]; [|contradiction].
+      rewrite (rr_name_complete p (n + 10) buffer pls pn) by (auto; try lia; apply Hd5; auto).
+      pose proof (ins_ptr_spec (dotted pls) [a4; b4; c4; d4] ttl (de_ptr e)) as Hs. cbv zeta in Hs.
+      destruct (ins_ip ir_name _ (de_ptr e)) as [l u] eqn:Hi. cbn [fst snd] in Hs.
+      exists u. eexists. split; [reflexivity|]. split; [|reflexivity]. cbn [learn_into]. unfold cache_of_entry at 1. cbn [c_ptr].
+      rewrite Hs. reflexivity.
+    - exists false, e. repeat split; reflexivity. }
+  exists false, e. repeat split; reflexivity.
 Qed.
 
-(* depth condition on every name the answers use *)
-Fixpoint rrs_shallow (lim : nat) (count : nat) (msg : bytes) (off : nat) : Prop :=
+(* the names the answers use are within the decoder's bounds (at most 254 pointers each), and no
+   label of a PTR owner contains a '.' octet (such names are rejected by dnsmessage; the library
+   reads the dotted text: accepted leniency) *)
+Fixpoint rrs_within (lim : nat) (count : nat) (msg : bytes) (off : nat) : Prop :=
   match count with
   | O => True
   | S c =>
       match ref_rr_at lim msg off with
       | Some (r, nx) =>
           (depth_at msg off <= 254)%nat /\
-          (rr_type r = 5 -> (depth_at msg (rr_rdoff r) <= 254)%nat) /\
-          rrs_shallow lim c msg nx
+          (rr_type r = 5 \/ rr_type r = 12 -> (depth_at msg (rr_rdoff r) <= 254)%nat) /\
+          (rr_type r = 12 -> Forall dotfree (rr_owner r)) /\
+          rrs_within lim c msg nx
       | None => True
       end
   end.
@@ -222,75 +401,213 @@ Fixpoint rrs_shallow (lim : nat) (count : nat) (msg : bytes) (off : nat) : Prop 
 Lemma decodeRRs_loop_spec p buffer lim : wf p -> bytes_ok (arr p) -> (lim <= 256)%nat ->
   forall count off u e rrs endoff,
     ref_rrs lim count (view p) off = Some (rrs, endoff) ->
-    rrs_shallow lim count (view p) off ->
-    Forall (fun r => rr_type r <> 12) rrs ->
+    rrs_within lim count (view p) off ->
     Forall (fun r => learn lim (view p) r <> LBad) rrs ->
     exists u' e', decodeRRs_loop count p buffer off u e = (Ok (Z.of_nat endoff, u'), e') /\
-                  learn_all (cache_of_entry e) u (map (learn lim (view p)) rrs) = (cache_of_entry e', u').
+                  learn_all (cache_of_entry e) u (map (learn lim (view p)) rrs) = (cache_of_entry e', u') /\
+                  de_name e' = de_name e.
 Proof.
-  intros Hwf Hok Hlim. induction count as [|c IH]; intros off u e rrs endoff H Hsh H12 Hbad; cbn [ref_rrs decodeRRs_loop] in *.
-  - inversion H; subst. exists u, e. split; reflexivity.
+  intros Hwf Hok Hlim. induction count as [|c IH]; intros off u e rrs endoff H Hsh Hbad; cbn [ref_rrs decodeRRs_loop] in *.
+  - inversion H; subst. exists u, e. repeat split; reflexivity.
   - destruct (ref_rr_at lim (view p) off) as [[r nx]|] eqn:Hr; [|discriminate].
     destruct (ref_rrs lim c (view p) nx) as [[l e2]|] eqn:Hrest; [|discriminate].
-    inversion H; subst rrs endoff; clear H. cbn [rrs_shallow] in Hsh. rewrite Hr in Hsh. destruct Hsh as (Hd & Hd5 & Hsh).
-    inversion H12 as [|? ? H12a H12b]; subst. inversion Hbad as [|? ? Hba Hbb]; subst.
-    destruct (rr_step_spec p buffer off e r nx lim Hwf Hok Hlim Hr Hd H12a Hd5 Hba) as (u1 & e1 & Hstep & Hlearn).
+    inversion H; subst rrs endoff; clear H. cbn [rrs_within] in Hsh. rewrite Hr in Hsh.
+    destruct Hsh as (Hd & Hd5 & Hdot & Hsh).
+    inversion Hbad as [|? ? Hba Hbb]; subst.
+    destruct (rr_step_spec p buffer off e r nx lim Hwf Hok Hlim Hr Hd Hd5 Hdot Hba) as (u1 & e1 & Hstep & Hlearn & Hn1).
     rewrite Hstep.
-    destruct (IH nx (u || u1) e1 l e2 Hrest Hsh H12b Hbb) as (u' & e' & Hloop & Hall).
-    exists u', e'. split; [exact Hloop|]. cbn [map learn_all]. rewrite Hlearn. exact Hall.
+    destruct (IH nx (u || u1) e1 l e2 Hrest Hsh Hbb) as (u' & e' & Hloop & Hall & Hn').
+    exists u', e'. split; [exact Hloop|]. split; [|congruence]. cbn [map learn_all]. rewrite Hlearn. exact Hall.
 Qed.
 
-(* DecodeAnswers(p, off, buffer) on an entry e: when the reference reads ANCOUNT well-formed
-   records at off, none of them a PTR record, every name within the decoder's bounds, then the
-   call succeeds, returns the end of the answer section, and the entry holds exactly what the
-   reference learns (first record per key wins), the flag telling whether anything was added. *)
+(* C17_records: DecodeAnswers(p, off, buffer) on an entry e.  When the reference reads ANCOUNT
+   well-formed records at off (A, AAAA, CNAME, PTR, any other type) and every name is within the
+   decoder's bounds, the call succeeds, returns the end of the answer section, and the entry holds
+   exactly what the reference learns, merged first-wins into what it held, the flag telling
+   whether anything was added. *)
 Theorem answers_spec p off buffer e lim an rrs endoff :
   wf p -> bytes_ok (arr p) -> (12 <= len p)%nat -> (lim <= 256)%nat ->
   u16_at (view p) 6 = Some an ->
   ref_rrs lim (N.to_nat an) (view p) off = Some (rrs, endoff) ->
-  rrs_shallow lim (N.to_nat an) (view p) off ->
-  Forall (fun r => rr_type r <> 12) rrs ->
+  rrs_within lim (N.to_nat an) (view p) off ->
   Forall (fun r => learn lim (view p) r <> LBad) rrs ->
   exists u e', decodeAnswers p (Z.of_nat off) buffer e = (Ok (Z.of_nat endoff, u), e') /\
-               learn_all (cache_of_entry e) false (map (learn lim (view p)) rrs) = (cache_of_entry e', u).
+               learn_all (cache_of_entry e) false (map (learn lim (view p)) rrs) = (cache_of_entry e', u) /\
+               de_name e' = de_name e.
 Proof.
-  intros Hwf Hok H12 Hlim Han Hr Hsh Hn12 Hbad. unfold decodeAnswers.
+  intros Hwf Hok H12 Hlim Han Hr Hsh Hbad. unfold decodeAnswers.
   pose proof Hwf as Hwf'. unfold wf in Hwf'. rewrite be16_at_ok by lia.
   apply u16_at_view in Han as [_ Han]; auto. rewrite Han. unfold decodeRRs.
   destruct (N.to_nat an) as [|c] eqn:Ec.
-  - cbn [ref_rrs] in Hr. inversion Hr; subst. exists false, e. split; reflexivity.
+  - cbn [ref_rrs] in Hr. inversion Hr; subst. exists false, e. repeat split; reflexivity.
   - destruct (Z.ltb_spec (Z.of_nat off) 0); [lia|]. rewrite Nat2Z.id.
-    destruct (decodeRRs_loop_spec p buffer lim Hwf Hok Hlim (S c) off false e rrs endoff Hr Hsh Hn12 Hbad)
-      as (u' & e' & Hl & Ha).
-    exists u', e'. split; assumption.
+    destruct (decodeRRs_loop_spec p buffer lim Hwf Hok Hlim (S c) off false e rrs endoff Hr Hsh Hbad)
+      as (u' & e' & Hl & Ha & Hn).
+    exists u', e'. repeat split; assumption.
 Qed.
 
 (* non-vacuity: www.example.com CNAME cdn.example.com (compressed), cdn.example.com A 10.0.0.1
-   (owner = pointer into the CNAME RDATA) *)
+   (owner = pointer into the CNAME RDATA), 4.3.2.1.in-addr.arpa PTR (pointer to the question name) *)
 Definition example_response : bytes :=
-  [0;1;129;128;0;1;0;2;0;0;0;0] ++
+  [0;1;129;128;0;1;0;3;0;0;0;0] ++
   [3;119;119;119;7;101;120;97;109;112;108;101;3;99;111;109;0;0;1;0;1] ++
   [192;12;0;5;0;1;0;0;0;60;0;6;3;99;100;110;192;16] ++
-  [192;45;0;1;0;1;0;0;0;60;0;4;10;0;0;1].
+  [192;45;0;1;0;1;0;0;0;60;0;4;10;0;0;1] ++
+  [1;52;1;51;1;50;1;49;7;105;110;45;97;100;100;114;4;97;114;112;97;0;0;12;0;1;0;0;0;9;0;2;192;12].
 
 Example answers_spec_nonvacuous :
   let p := of_bytes example_response in
-  wf p /\ bytes_okb (arr p) = true /\ (12 <= len p)%nat /\ u16_at (view p) 6 = Some 2 /\
-  exists rrs, ref_rrs NAME_LIMIT 2 (view p) 33 = Some (rrs, 67%nat) /\
-    rrs_shallow NAME_LIMIT 2 (view p) 33 /\
-    Forall (fun r => rr_type r <> 12) rrs /\
+  wf p /\ bytes_okb (arr p) = true /\ (12 <= len p)%nat /\ u16_at (view p) 6 = Some 3 /\
+  exists rrs, ref_rrs NAME_LIMIT 3 (view p) 33 = Some (rrs, 101%nat) /\
+    rrs_within NAME_LIMIT 3 (view p) 33 /\
     Forall (fun r => learn NAME_LIMIT (view p) r <> LBad) rrs /\
     map (learn NAME_LIMIT (view p)) rrs =
       [LCNAME [119;119;119;46;101;120;97;109;112;108;101;46;99;111;109]
               [99;100;110;46;101;120;97;109;112;108;101;46;99;111;109] 60;
-       LA [99;100;110;46;101;120;97;109;112;108;101;46;99;111;109] [10;0;0;1] 60] /\
-    fst (decodeAnswers p 33 (mkSlice (repeat 0 64) 0) (new_entry [])) = Ok (67%Z, true).
+       LA [99;100;110;46;101;120;97;109;112;108;101;46;99;111;109] [10;0;0;1] 60;
+       LPTR [119;119;119;46;101;120;97;109;112;108;101;46;99;111;109] [1;2;3;4] 9] /\
+    fst (decodeAnswers p 33 (mkSlice (repeat 0 64) 0) (new_entry [])) = Ok (101%Z, true).
 Proof.
   cbv zeta. split; [unfold wf, cap; vm_compute; lia|]. split; [vm_compute; reflexivity|].
   split; [vm_compute; lia|]. split; [vm_compute; reflexivity|].
   eexists. split; [vm_compute; reflexivity|].
-  split; [vm_compute; repeat split; try lia; intros; lia|].
-  split; [repeat constructor; vm_compute; discriminate|].
+  split.
+  { cbn [rrs_within]. unfold dotfree.
+    repeat (match goal with |- context [ref_rr_at ?l ?m ?o] =>
+              let v := eval vm_compute in (ref_rr_at l m o) in change (ref_rr_at l m o) with v end; cbv iota beta);
+    repeat split; try (vm_compute; lia); try (intros; vm_compute; lia);
+      try (intros [H|H]; vm_compute in H; discriminate);
+      try (intros H; vm_compute in H; discriminate).
+    intros _. repeat constructor; intros H; vm_compute in H; repeat (destruct H as [H|H]; [discriminate|]); exact H. }
   split; [repeat constructor; vm_compute; discriminate|].
   split; vm_compute; reflexivity.
+Qed.
+
+(* ------------------------------------------------------------------ *)
+(* ProcessDNS and the DNSTable *)
+
+Definition ctable_of (t : dns_table) : ctable := map (fun e => (de_name e, cache_of_entry e)) t.
+Definition named_of (e : dns_entry) : bytes * cache := (de_name e, cache_of_entry e).
+
+Lemma tfind_ctable name t : tfind name (ctable_of t) = option_map cache_of_entry (tbl_find name t).
+Proof.
+  induction t as [|e r IH]; [reflexivity|]. cbn [ctable_of map tfind tbl_find fst snd].
+  pose proof (lab_eqb_bytes_eqb (de_name e) name) as E.
+  destruct (bytes_eqb (de_name e) name); rewrite E; [reflexivity|exact IH].
+Qed.
+
+Lemma tbl_find_name name t e : tbl_find name t = Some e -> de_name e = name.
+Proof.
+  induction t as [|x r IH]; [discriminate|]. cbn [tbl_find].
+  destruct (bytes_eqb (de_name x) name) eqn:E; [|exact IH].
+  intros H; inversion H; subst. apply bytes_eqb_eq. exact E.
+Qed.
+
+Lemma ctable_put e t : ctable_of (tbl_put e t) = tput (de_name e) (cache_of_entry e) (ctable_of t).
+Proof.
+  induction t as [|x r IH]; [reflexivity|]. cbn [ctable_of map tput tbl_put fst snd].
+  pose proof (lab_eqb_bytes_eqb (de_name x) (de_name e)) as E.
+  destruct (bytes_eqb (de_name x) (de_name e)); rewrite E; cbn [map]; [reflexivity|].
+  f_equal. exact IH.
+Qed.
+
+Lemma tput_same k c t : tfind k t = Some c -> tput k c t = t.
+Proof.
+  induction t as [|x r IH]; [discriminate|]. cbn [tfind tput].
+  destruct (lab_eqb (fst x) k) eqn:E.
+  - intros H; inversion H; subst. apply lab_eqb_eq in E. subst k. destruct x; reflexivity.
+  - intros H. f_equal. apply IH. exact H.
+Qed.
+
+Lemma learn_into_false c l c' : learn_into c l = (c', false) -> c' = c.
+Proof.
+  destruct c as [a b cn pt]. destruct l; cbn [learn_into c_a c_aaaa c_cname c_ptr]; unfold add_absent;
+    try (destruct (existsb _ _); intros H; inversion H; reflexivity); intros H; inversion H; reflexivity.
+Qed.
+
+Lemma learn_all_false ls : forall c u c', learn_all c u ls = (c', false) -> c' = c /\ u = false.
+Proof.
+  induction ls as [|l r IH]; intros c u c' H; cbn [learn_all] in H.
+  - inversion H; auto.
+  - destruct (learn_into c l) as [c1 u1] eqn:E. apply IH in H as [-> Hu].
+    apply orb_false_iff in Hu as [-> ->]. apply learn_into_false in E. auto.
+Qed.
+
+Lemma not_bad_forall lim msg rrs : existsb is_bad (map (learn lim msg) rrs) = false ->
+  Forall (fun r => learn lim msg r <> LBad) rrs.
+Proof.
+  induction rrs as [|r l IH]; intros H; [constructor|]. cbn [map existsb] in H.
+  apply orb_false_iff in H as [H1 H2]. constructor; [|apply IH; exact H2].
+  intros E. rewrite E in H1. discriminate.
+Qed.
+
+(* every name of the message is within the decoder's bounds *)
+Definition msg_within (lim : nat) (msg : bytes) : Prop :=
+  (depth_at msg 12 <= 254)%nat /\
+  forall q off an, ref_question_at lim msg 12 = Some (q, off) -> u16_at msg 6 = Some an ->
+                   rrs_within lim (N.to_nat an) msg off.
+
+(* C17_processdns_table: for every previous table and every message the reference reads as a
+   well-formed response (header, one question, ANCOUNT answers; names of at most lim <= 256 octets
+   within the decoder's bounds), ProcessDNS succeeds, hands back exactly what the reference hands
+   back (the merged entry when something was added, nothing otherwise), and the table afterwards is
+   the reference table: reference learning merged insert-if-absent into the previous table. *)
+Theorem processdns_table t p lim rm :
+  wf p -> bytes_ok (arr p) -> (lim <= 256)%nat -> (18 <= len p)%nat ->
+  ref_message lim (view p) = Some rm -> msg_within lim (view p) ->
+  exists re, fst (processDNS t p) = Ok re /\
+             option_map named_of re = fst (ref_process (ctable_of t) rm) /\
+             ctable_of (snd (processDNS t p)) = snd (ref_process (ctable_of t) rm).
+Proof.
+  intros Hwf Hok Hlim H18 Hm [Hdq Hwithin]. unfold ref_message in Hm.
+  destruct (u16_at (view p) 4) as [qd|] eqn:Hqd; [|discriminate].
+  destruct (u16_at (view p) 6) as [an|] eqn:Han; [|discriminate].
+  destruct (N.eqb_spec qd 1) as [->|]; [|discriminate]. cbn [andb] in Hm.
+  destruct (Nat.leb (12) (length (view p))); [|discriminate].
+  destruct (ref_question_at lim (view p) 12) as [[q off]|] eqn:Hq; [|discriminate].
+  specialize (Hwithin q off an eq_refl eq_refl).
+  destruct (ref_rrs lim (N.to_nat an) (view p) off) as [[rrs endoff]|] eqn:Hrr; [|discriminate].
+  destruct (existsb is_bad (map (learn lim (view p)) rrs)) eqn:Hbad; [discriminate|].
+  inversion Hm; subst rm; clear Hm. apply not_bad_forall in Hbad.
+  unfold ref_question_at in Hq.
+  destruct (ref_decode (view p) 12) as [[ls n]|] eqn:Hdec; [|discriminate].
+  destruct (Nat.leb_spec (wire_len ls) lim) as [Hw|]; [|discriminate].
+  destruct (u16_at (view p) n) as [ty|] eqn:Hty; [|discriminate].
+  destruct (u16_at (view p) (n + 2)) as [cl|] eqn:Hcl; [|discriminate].
+  inversion Hq; subst q off; clear Hq. cbn [rq_name].
+  apply ref_decode_depth in Hdec; [|apply bytes_ok_view; exact Hok].
+  unfold processDNS, processDNS_buf. destruct (Nat.ltb_spec (len p) 12); [lia|].
+  change 12%Z with (Z.of_nat 12).
+  rewrite (question_complete_gen p 12 _ _ ls n ty cl Hwf Hok ltac:(lia) Hqd Hdec Hdq ltac:(lia) ltac:(lia) Hty Hcl).
+  cbn [q_name]. unfold ref_process. cbn [rm_qname rm_learned]. rewrite tfind_ctable.
+  set (e0 := match tbl_find (dotted ls) t with Some e => e | None => new_entry (dotted ls) end).
+  assert (He0 : de_name e0 = dotted ls).
+  { subst e0. destruct (tbl_find (dotted ls) t) eqn:F; [eapply tbl_find_name; eauto|reflexivity]. }
+  assert (Hc0 : match option_map cache_of_entry (tbl_find (dotted ls) t) with Some c => c | None => cache_empty end
+                = cache_of_entry e0).
+  { subst e0. destruct (tbl_find (dotted ls) t); reflexivity. }
+  rewrite Hc0.
+  destruct (answers_spec p (n + 4) (mkSlice (repeat 0 64) 0) e0 lim an rrs endoff Hwf Hok ltac:(lia) Hlim Han Hrr Hwithin Hbad)
+    as (u & e' & Hans & Hlearn & Hname).
+  rewrite Hans, Hlearn. destruct u.
+  - exists (Some e'). cbn [fst snd]. split; [reflexivity|]. unfold named_of. cbn [option_map]. rewrite Hname, He0.
+    split; [reflexivity|]. rewrite ctable_put, Hname, He0. reflexivity.
+  - exists None. cbn [fst snd]. split; [reflexivity|]. split; [reflexivity|].
+    apply learn_all_false in Hlearn as [Hc _].
+    destruct (tbl_find (dotted ls) t) as [ef|] eqn:F; [|reflexivity].
+    rewrite ctable_put, Hname, He0, Hc. apply tput_same. rewrite tfind_ctable, F. subst e0. reflexivity.
+Qed.
+
+Example processdns_table_nonvacuous :
+  let p := of_bytes example_response in
+  wf p /\ bytes_okb (arr p) = true /\ (18 <= len p)%nat /\
+  (exists rm, ref_message NAME_LIMIT (view p) = Some rm /\ List.length (rm_learned rm) = 3%nat) /\
+  msg_within NAME_LIMIT (view p).
+Proof.
+  cbv zeta. split; [unfold wf, cap; vm_compute; lia|]. split; [vm_compute; reflexivity|].
+  split; [vm_compute; lia|]. split; [eexists; split; vm_compute; reflexivity|].
+  split; [vm_compute; lia|].
+  intros q off an Hq Han. vm_compute in Hq. vm_compute in Han. inversion Hq; inversion Han; subst.
+  destruct answers_spec_nonvacuous as (_ & _ & _ & _ & rrs & _ & Hw & _).
+  exact Hw.
 Qed.
